@@ -41,6 +41,40 @@ Theorem C17_privileged_rejects : forall body f st k m c,
 Proof. exact invoke_rejects. Qed.
 Print Assumptions C17_privileged_rejects.
 
+(** ... and this in EVERY reachable node state: the registered contract objects are process-wide singletons
+    whose fields survive between transactions (outside the ledger); after any history [h] of external calls and
+    contract-to-contract invocations, from any node state, the wrong caller is still rejected and neither the
+    ledger nor the node-local memory changes.  (What the hypothesis [d_guard_memo f = []] excludes - a guard that
+    remembers an earlier success in the contract object - is refuted below and searched for by probing warmed
+    worlds.) *)
+Theorem C17_internal_rejects_reachable : forall body f ns0 h k m S,
+  d_guard_memo f = [] ->
+  find_method (k_contract k) (k_method k) = Some m ->
+  class_of m = Some (Internal S) ->
+  (forall n, defect_of m = Some n -> memN n (d_unguarded f) = false) ->
+  let ns := run_ncalls body f ns0 h in
+  exists e, invoke_n body f ns {| nc_call := k; nc_from := None |} = (Fail e, ns).
+Proof. exact internal_rejects_reachable. Qed.
+Print Assumptions C17_internal_rejects_reachable.
+
+Theorem C17_privileged_rejects_reachable : forall body f ns0 h k m c,
+  d_guard_memo f = [] ->
+  find_method (k_contract k) (k_method k) = Some m ->
+  class_of m = Some c -> guarded c = true ->
+  (forall n, defect_of m = Some n -> memN n (d_unguarded f) = false) ->
+  allowed c (k_caller k) = false ->
+  let ns := run_ncalls body f ns0 h in
+  exists e, invoke_n body f ns {| nc_call := k; nc_from := None |} = (Fail e, ns).
+Proof. exact privileged_rejects_reachable. Qed.
+Print Assumptions C17_privileged_rejects_reachable.
+
+Theorem C17_guard_memo_refuted :
+  fst (invoke_n std_body memo_cfg ns_fresh forged_report) = Fail E_NO_PERMISSION /\
+  fst (invoke_n std_body memo_cfg (run_ncalls std_body memo_cfg ns_fresh [legit_begin]) forged_report) = Ok /\
+  fst (invoke_n std_body cfg_fixed (run_ncalls std_body cfg_fixed ns_fresh [legit_begin]) forged_report) = Fail E_NO_PERMISSION.
+Proof. exact guard_memo_refuted. Qed.
+Print Assumptions C17_guard_memo_refuted.
+
 (** with the dispatcher repaired, promoted methods and methods without *Response result are not reachable *)
 Theorem C17_promoted_refused : forall body f st k m,
   find_method (k_contract k) (k_method k) = Some m ->
